@@ -91,6 +91,7 @@ fn run(input: RunInput) -> ScenFuture {
         let cert_own = gen_cert(&k_adv, "sim");
         let mut r = w.rng("adv:attempts");
         let mut samples = Vec::new();
+        let mut retired = Vec::new();
         for k in 0..n_attempts {
             let strat = STRATEGIES[r.gen_range(0..STRATEGIES.len())];
             let role = r.gen_range(0..4); // 0 adv dials H; 1 H dials adv; 2 H dials adv expecting X; 3 H dials adv expecting K'
@@ -207,7 +208,9 @@ fn run(input: RunInput) -> ScenFuture {
             if matches!(strat, "replay-x" | "x-spki-resigned" | "chain-x-own" | "mutated-x" | "no-cert") {
                 w.check(!(outcome.starts_with("admitted") || outcome.starts_with("dial-ok")), "forged-certificate-accepted", strat, || format!("role {role}: {outcome}"));
             }
-            adv.ep.close(0u32.into(), b"");
+            // (the endpoint stays alive until the end of the run: an endpoint that has forgotten a
+            // connection answers late packets for it depending on their - TLS-random - contents)
+            retired.push(adv);
             sleep_ms(r.gen_range(0..200)).await;
         }
         w.fabric.set_faults_enabled(false);
@@ -245,6 +248,7 @@ fn run(input: RunInput) -> ScenFuture {
         w.mark_overlap();
         w.sample("attempts", json!({"x_online": x_online, "lossy": lossy, "attempts": samples}));
         let out = w.finish();
+        drop(retired);
         drop((h, p, x_node));
         out
     })
